@@ -139,8 +139,16 @@ struct StaticCastOverflowImpl<Source, Dest, OverflowSituation::FLOAT_TO_ANYTHING
         // It's pretty safe to assume that `Source` can hold the limits of `Dest`, because otherwise
         // this would have been categorized as `DEST_BOUNDS_CONTAIN_SOURCE_BOUNDS` rather than
         // `FLOAT_TO_ANYTHING`.
+        //
+        // However, it may not hold them _exactly_.  The max of an integral `Dest` is `2^N - 1`; if
+        // `Source` has fewer than `N` digits, converting it to `Source` rounds up to `2^N`, which is
+        // already out of range for `Dest`.  (The lowest value is either 0 or `-2^N`: always exact.)
+        constexpr bool max_rounds_up =
+            std::is_integral<Dest>::value &&
+            (std::numeric_limits<Source>::digits < std::numeric_limits<Dest>::digits);
+        constexpr auto max_as_source = static_cast<Source>(std::numeric_limits<Dest>::max());
         return (x < static_cast<Source>(std::numeric_limits<Dest>::lowest())) ||
-               (x > static_cast<Source>(std::numeric_limits<Dest>::max()));
+               (max_rounds_up ? (x >= max_as_source) : (x > max_as_source));
     }
 };
 
